@@ -95,9 +95,16 @@ def mismatch_traces(ctx, uni, mp, g, ps, fam, thorough):
     xs = range(q) if toy and q <= 11 else [0, 1, q - 1, ctx.rng.randrange(q), ctx.rng.randrange(q)] if thorough else [0, ctx.rng.randrange(q)]
     for pairing in ("AB", "SS"):
         ids = (b"alice", b"bob") if pairing == "AB" else (b"sym",)
-        variants = [("pw", dict(pwB=b"other")), ("idA", dict(idsB=(b"alice2",) + ids[1:]))]
+        variants = [("pw", dict(pwB=b"other")), ("idA", dict(idsB=(b"alice2",) + ids[1:])),
+                    # differences a normalising implementation would erase: case, surrounding whitespace, NUL, NFC/NFD
+                    ("idA-case", dict(idsB=(ids[0].capitalize(),) + ids[1:])), ("idA-space", dict(idsB=(ids[0] + b" ",) + ids[1:])),
+                    ("idA-newline", dict(idsB=(b"\n" + ids[0],) + ids[1:])), ("idA-nul", dict(idsB=(ids[0] + b"\x00",) + ids[1:])),
+                    ("pw-case", dict(pwA=b"Password", pwB=b"password")), ("pw-space", dict(pwA=b"password", pwB=b"password ")),
+                    ("pw-nul", dict(pwA=b"password", pwB=b"password\x00")),
+                    ("pw-nfc-nfd", dict(pwA="pässword".encode(), pwB=b"pa\xcc\x88ssword"))]
         if pairing == "AB":
             variants += [("idB", dict(idsB=(ids[0], b"bob2"))), ("swap", dict(idsB=(ids[1], ids[0]))),
+                         ("idB-case", dict(idsB=(ids[0], b"BOB"))), ("idB-tab", dict(idsB=(ids[0], b"bob\t"))),
                          ("join", dict(idsB=(ids[0] + ids[1], b"")))]
         variants += [(k, dict(psB=fam[k])) for k in (DIFFS_PARAM[pairing] if toy else ([] if not fam else list(fam)))]
         for name, kw in variants:
@@ -105,7 +112,7 @@ def mismatch_traces(ctx, uni, mp, g, ps, fam, thorough):
                 for y in (xs if toy and q <= 5 or thorough and toy and q <= 11 else [0, (q - x) % q, ctx.rng.randrange(q)] if toy or thorough
                           else [(q - x) % q if x else ctx.rng.randrange(q)]):
                     for w in ([0, 1] if toy else [None]):
-                        pw = mp.pw_for(g, w) if toy else b"password"
+                        pw = kw.get("pwA") or (mp.pw_for(g, w) if toy else b"password")
                         r = exchange(uni, "mismatch/%s/%s/%s/x%d/y%d/w%s" % (g, pairing, name, x % 1000, y % 1000, w), pairing, ps, pw,
                                      kw.get("pwB", pw), ids, kw.get("idsB", ids), mp.stream_for(g, x), mp.stream_for(g, y),
                                      psB=kw.get("psB"))
